@@ -1299,53 +1299,66 @@ func (u *Unit) recv(fr *Frame, st *State, in *ssa.UnOp) Val {
 	return v
 }
 
+// atPseudo proves the `at <kind> label: e` clauses of the unit's contract at a site that is
+// not a call of a named function (a channel send, a close): args are bound as arg0, arg1, ..
+func (u *Unit) atPseudo(fr *Frame, st *State, kind, desc string, pos token.Pos, args []envVar) {
+	// a function literal called in place runs on the caller's goroutine: what it sends or
+	// closes is sent or closed by the function that called it
+	for fr != nil && fr.contract == nil {
+		fr = fr.parent
+	}
+	if fr == nil {
+		return
+	}
+	for _, at := range fr.contract.AtCalls {
+		if strings.TrimSuffix(at.Callee, "$") != kind {
+			continue
+		}
+		label := at.Clause.Label
+		if label == "" {
+			label = "1"
+		}
+		u.counters["at@"+at.Callee+"#"+label]++
+		name := fmt.Sprintf("at@%s#%s/site%d", at.Callee, label, u.counters["at@"+at.Callee+"#"+label])
+		env := u.envFor(fr, st, u.entry, nil)
+		env.scopeTolerant = true
+		if env.bound == nil {
+			env.bound = map[string]envVar{}
+		}
+		for i, a := range args {
+			env.bound[fmt.Sprintf("arg%d", i)] = a
+		}
+		goal, inScope := func() (g *Term, ok bool) {
+			defer func() {
+				if r := recover(); r != nil {
+					if _, is := r.(notInScope); is {
+						g, ok = nil, false
+						return
+					}
+					panic(r)
+				}
+			}()
+			return u.evalBoolF(env, st, at.Clause.Expr), true
+		}()
+		if u.atApplied == nil {
+			u.atApplied = map[string]int{}
+		}
+		if !inScope {
+			u.counters["at@"+at.Callee+"#"+label]--
+			u.atApplied[at.Callee+"#"+label] += 0
+			continue
+		}
+		u.atApplied[at.Callee+"#"+label]++
+		u.addOblNamed(st, "at", name, desc+at.Clause.Src, pos, goal)
+	}
+}
+
 func (u *Unit) send(fr *Frame, st *State, in *ssa.Send) {
 	v := u.val(fr, st, in.X)
 	// `at chan.send label: e`: proved right before every channel send of the unit, with
 	// the channel bound as arg0 and the value sent as arg1 (what a unit hands to the
 	// goroutine on the other end is the only thing a contract can say about a send)
-	if fr.contract != nil {
-		for _, at := range fr.contract.AtCalls {
-			if strings.TrimSuffix(at.Callee, "$") != "chan.send" {
-				continue
-			}
-			label := at.Clause.Label
-			if label == "" {
-				label = "1"
-			}
-			u.counters["at@"+at.Callee+"#"+label]++
-			name := fmt.Sprintf("at@%s#%s/site%d", at.Callee, label, u.counters["at@"+at.Callee+"#"+label])
-			env := u.envFor(fr, st, u.entry, nil)
-			env.scopeTolerant = true
-			if env.bound == nil {
-				env.bound = map[string]envVar{}
-			}
-			env.bound["arg0"] = envVar{u.val(fr, st, in.Chan), in.Chan.Type()}
-			env.bound["arg1"] = envVar{v, in.X.Type()}
-			goal, inScope := func() (g *Term, ok bool) {
-				defer func() {
-					if r := recover(); r != nil {
-						if _, is := r.(notInScope); is {
-							g, ok = nil, false
-							return
-						}
-						panic(r)
-					}
-				}()
-				return u.evalBoolF(env, st, at.Clause.Expr), true
-			}()
-			if u.atApplied == nil {
-				u.atApplied = map[string]int{}
-			}
-			if !inScope {
-				u.counters["at@"+at.Callee+"#"+label]--
-				u.atApplied[at.Callee+"#"+label] += 0
-				continue
-			}
-			u.atApplied[at.Callee+"#"+label]++
-			u.addOblNamed(st, "at", name, "at the channel send: "+at.Clause.Src, in.Pos(), goal)
-		}
-	}
+	u.atPseudo(fr, st, "chan.send", "at the channel send: ", in.Pos(), []envVar{{u.val(fr, st, in.Chan), in.Chan.Type()}, {v, in.X.Type()}})
 	// built-in ghost `sentLastStr` (when a spec declares it): the last string a unit
 	// sent on a channel of strings - what a streaming writer has to have sent last
 	// before it may return
